@@ -46,6 +46,10 @@ func (p Params) Validate() error {
 		return fmt.Errorf("invalid poolCreationFee: %w", err)
 	}
 
+	if p.PoolCreationFee.Amount.BigInt().BitLen() > 255 {
+		return fmt.Errorf("poolCreationFee too large (more than 255 bits): %s", p.PoolCreationFee.String())
+	}
+
 	if !p.PoolCreationFee.IsPositive() {
 		return fmt.Errorf("poolCreationFee must be positive: %s", p.PoolCreationFee.String())
 	}
@@ -81,6 +85,10 @@ func validatePoolCreationFee(i interface{}) error {
 
 	if err := v.Validate(); err != nil {
 		return fmt.Errorf("invalid poolCreationFee: %w", err)
+	}
+
+	if v.Amount.BigInt().BitLen() > 255 {
+		return fmt.Errorf("poolCreationFee too large (more than 255 bits): %s", v.String())
 	}
 
 	if !v.IsPositive() {
